@@ -108,6 +108,11 @@ func (it *Generator) Send(arg Object) (Object, error) {
 	if it.Frame.Yielded {
 		return res, nil
 	}
+	// The generator returned: the return value (if it isn't None) is
+	// carried by the StopIteration - "return v" means "raise StopIteration(v)"
+	if res != nil && res != None {
+		return nil, exceptionNew(StopIteration, Tuple{res})
+	}
 	return nil, StopIteration
 }
 
